@@ -44,6 +44,12 @@
     calls — complete, suspended, failed — / Reset, then a legitimate call that ends with OK), `sig_never_panics_init`,
     `sig_never_panics_schedule` (every chunk schedule from Init), `sig_never_panics_reset(_schedule)`,
     `reset_after_history_is_init` (Reset after any history is literally an Init object).
+  GetMsgSig in EVERY state (library repair F24, found by the review of the oracles: the function sliced `msg.Buf`, which
+  is set only on completion, and panicked on a suspended or failed message; the session executor had answered `nosig`
+  itself there): the model's `getMsgSig` is the new completeness guard in front of `getMsgSigCore` — the function all
+  the `sig_*` theorems above are about; `sig_empty_before_completion` (any state other than final / Content-Length-
+  required end state: "empty", nothing is read), `sig_is_core_when_complete`, `sig_panics_only_via_core`: the only way
+  GetMsgSig could panic is through its core on a completed message — which `sig_never_panics*` exclude.
   Assumed (as everywhere): arrays handed to Init are cleared (Go's Init does not clear them either).
 -/
 import Sipsp.Proofs.ProgressNA
@@ -52,6 +58,7 @@ import Sipsp.Tie
 import Sipsp.Proofs.SafeRest
 import Sipsp.Proofs.SigCompose
 import Sipsp.Proofs.AuditFixA
+import Sipsp.Proofs.SigGuard
 
 namespace Sipsp.C04
 open Sipsp
@@ -413,5 +420,18 @@ theorem uriparams_schedule_no_model_exit : type_of% @Sipsp.parseAllURIParams_sch
 
 /-- **ParseAllURIHdrs, every chunk schedule (option off)** -/
 theorem urihdrs_schedule_no_model_exit : type_of% @Sipsp.parseAllURIHdrs_schedule_ne_lbug := @Sipsp.parseAllURIHdrs_schedule_ne_lbug
+
+/-! ### GetMsgSig = completeness guard + core (library repair F24) (proved in `Sipsp.Proofs.SigGuard`) -/
+
+/-- before completion (any other state: new, suspended in the first line / header block / body, failed) there is no
+    signature, nothing is read, nothing can panic -/
+theorem sig_empty_before_completion : type_of% @Sipsp.getMsgSig_incomplete := @Sipsp.getMsgSig_incomplete
+
+/-- on a completely parsed message (final state, or the "Content-Length required but missing" end state) the signature
+    function is its core -/
+theorem sig_is_core_when_complete : type_of% @Sipsp.getMsgSig_complete := @Sipsp.getMsgSig_complete
+
+/-- **no panic in ANY state**: the only way `GetMsgSig` can panic is through its core on a completed message -/
+theorem sig_panics_only_via_core : type_of% @Sipsp.getMsgSig_panics_only_via_core := @Sipsp.getMsgSig_panics_only_via_core
 
 end Sipsp.C04
